@@ -20,27 +20,59 @@ Proof.
   apply lookup_remove_k_other. exact Hne.
 Qed.
 
-Lemma fold_merge_other : forall (l : rset) h r,
-  ~ In r (map fst l) ->
-  lookup r (fold_left (fun acc x => set_k (fst x) (snd x) acc) l h) = lookup r h.
+Definition mstep (acc : list (rid * rdata)) (x : rid * rdata) : list (rid * rdata) :=
+  match snd x, lookup (fst x) acc with
+  | RErr _, Some (RModel _ | RColl _) => acc
+  | _, _ => set_k (fst x) (snd x) acc
+  end.
+
+Lemma merge_set_fold rs h : merge_set rs h = fold_left mstep rs h.
+Proof. reflexivity. Qed.
+
+Lemma mstep_other acc x r : r <> fst x -> lookup r (mstep acc x) = lookup r acc.
 Proof.
-  induction l as [|[r1 d1] l IH]; intros h r Hn; cbn [fold_left fst snd]; [reflexivity|].
-  rewrite IH; [|intros H; apply Hn; right; exact H].
-  apply lookup_set_k_other. intros ->. apply Hn. left. reflexivity.
+  destruct x as [r0 d0]. cbn [fst]. intros Hne. unfold mstep. cbn [fst snd].
+  destruct d0 as [m|l|code]; try (apply lookup_set_k_other; exact Hne).
+  destruct (lookup r0 acc) as [[m0|l0|c0]|]; try reflexivity; apply lookup_set_k_other; exact Hne.
 Qed.
 
-(* every resource delivered in a message's resource set resolves afterwards (the later entry wins on duplicates) *)
+Lemma mstep_same acc x : exists d, lookup (fst x) (mstep acc x) = Some d.
+Proof.
+  destruct x as [r0 d0]. unfold mstep. cbn [fst snd].
+  destruct d0 as [m|l|code]; try (eexists; apply lookup_set_k_same).
+  destruct (lookup r0 acc) as [[m0|l0|c0]|] eqn:L; try (eexists; apply lookup_set_k_same); eexists; exact L.
+Qed.
+
+Lemma fold_merge_other : forall (l : rset) h r,
+  ~ In r (map fst l) -> lookup r (fold_left mstep l h) = lookup r h.
+Proof.
+  induction l as [|x l IH]; intros h r Hn; cbn [fold_left]; [reflexivity|].
+  rewrite IH; [|intros H; apply Hn; right; exact H].
+  apply mstep_other. intros ->. apply Hn. left. reflexivity.
+Qed.
+
+(* every resource delivered in a message's resource set resolves afterwards *)
 Theorem merged_resolves : forall (rs : rset) h r,
   In r (map fst rs) -> exists d, lookup r (merge_set rs h) = Some d.
 Proof.
-  unfold merge_set. induction rs as [|[r0 d0] rs IH]; intros h r Hin; [destruct Hin|].
-  cbn [fold_left fst snd]. destruct (in_dec Nat.eq_dec r (map fst rs)) as [Hl|Hn].
+  intros rs h r. rewrite merge_set_fold. revert h.
+  induction rs as [|x rs IH]; intros h Hin; [destruct Hin|].
+  cbn [fold_left]. destruct (in_dec Nat.eq_dec r (map fst rs)) as [Hl|Hn].
   - apply IH. exact Hl.
-  - cbn in Hin. destruct Hin as [->|Hin]; [|contradiction].
-    exists d0. rewrite fold_merge_other by exact Hn. apply lookup_set_k_same.
+  - cbn in Hin. destruct Hin as [<-|Hin]; [|contradiction].
+    rewrite fold_merge_other by exact Hn. apply mstep_same.
 Qed.
 
 (* resources outside the set are untouched by the merge *)
 Theorem merge_keeps_others : forall (rs : rset) h r,
   ~ In r (map fst rs) -> lookup r (merge_set rs h) = lookup r h.
-Proof. intros. apply fold_merge_other. assumption. Qed.
+Proof. intros. rewrite merge_set_fold. apply fold_merge_other. assumption. Qed.
+
+(* data the client holds is never replaced by an error entry *)
+Theorem error_entry_keeps_data : forall h r code d,
+  lookup r h = Some d -> (match d with RErr _ => False | _ => True end) ->
+  lookup r (merge_set [(r, RErr code)] h) = Some d.
+Proof.
+  intros h r code d L Hd. rewrite merge_set_fold. cbn [fold_left]. unfold mstep. cbn [fst snd]. rewrite L.
+  destruct d as [m|l|c]; [exact L|exact L|destruct Hd].
+Qed.
